@@ -393,6 +393,23 @@ static void scn_after_main(struct loopthr *lt)
 
 static int scn_next_phase(void) { return 0; }
 
+void hk_idle(void)
+{
+	int i, n = nitems, bad = 0;
+	if (atomic_load(&mt_phase))
+		return;
+	/* every thread is blocked: an item that was submitted and has not completed can only be rescued by an unrelated time-out */
+	for (i = 0; i < n && bad < 3; i++) {
+		struct item *it = &items[i];
+		if (it->submitted && (it->works != 1 || it->completions != 1)) {
+			bad++;
+			mon_viol("C12", "item-stalled", g_method,
+				 "every thread is blocked (workers idle or absent) and item %d of owner %d is incomplete: work ran %d time(s), completion %d time(s)",
+				 i, it->pool, (int)it->works, (int)it->completions);
+		}
+	}
+}
+
 static void scn_quiescent_check(void)
 {
 	int i, n = nitems, o;
